@@ -555,6 +555,10 @@ def diff(spec, real, started=True):
     return out
 
 
+C14_FIELDS = set(GROUPS["C14"])
+SEND_FIELDS = set(GROUPS["C16"]) | set(GROUPS["C17"]) | {"att"}
+
+
 def owners_of(fields, late):
     """Properties a set of diverging fields speaks about. `late`: the action was an answer / task that arrived
     after the future had completed (then a callback/outcome difference is C14's alone: everything else is fallout)."""
@@ -567,17 +571,33 @@ def owners_of(fields, late):
     return own
 
 
-def classify(action, fields, late, spec_timer=None, code_timer=None):
-    """A stable signature per class of divergence."""
-    name = action["name"] if isinstance(action, dict) else str(action)
+def attribute(name, fields, late, target):
+    """(signature, owners) of a divergence: one stable signature per class of failure."""
     f = set(fields)
-    if late and f & set(GROUPS["C14"]):
-        return "late-answer:completed-again"
-    if name == "StartNextPage" and "timer" in f:
-        return "StartNextPage:no-fresh-timer"
+    if late and f & C14_FIELDS:
+        # an answer / retry task after completion completed the future again
+        return "late-answer:completed-again", {"C14"}
+    if name == "StartNextPage" and f and f <= {"timer", "specLeft"}:
+        return "StartNextPage:no-fresh-timer", {"C15"}
+    if target and name in ("SpecFire", "RetryTask") and f & SEND_FIELDS:
+        # send_request re-entered with an explicit target host: the one-host plan is iterated again
+        return "explicit-host:plan-reiterated", {"C17"}
     if name == "Drain":
-        return "drain:" + ",".join(sorted(f))
-    return "replay:%s:%s" % (name, ",".join(sorted(f)))
+        return "drain:" + ",".join(sorted(f)), {"C15"}
+    if not f:
+        own = {"AnsOk": {"C14"}, "AnsFatal": {"C14"}, "AnsErr": {"C16"}, "RetryTask": {"C16"}, "SpecFire": {"C15"},
+               "TimeoutFire": {"C15"}, "StartNextPage": {"C15"}, "Start": {"C17"}}.get(name, {"C14", "C15", "C16", "C17"})
+        return "replay:%s:not-performed" % name, own
+    return "replay:%s:%s" % (name, ",".join(sorted(f))), owners_of(f, late)
+
+
+def signature_for(pid, div):
+    """The signature under which property `pid` reports divergence `div` (only its own fields for generic ones)."""
+    sig = div["signature"]
+    if not sig.startswith("replay:") or sig.endswith(":not-performed"):
+        return sig
+    mine = sorted(k for k in div["diff"] if FIELD_OWNER.get(k) == pid) or sorted(k for k in div["diff"] if not k.startswith("_"))
+    return "replay:%s:%s" % (div["action"].get("name"), ",".join(mine))
 
 
 def _is_late(name, prev_final):
@@ -591,15 +611,31 @@ def config_of(state):
             "target": int(state["target"])}
 
 
-def replay(nhosts, states, max_epoch=2, drain=True, log=None):
-    """Replay one behaviour (list of spec states, first = an initial state). Returns None or a divergence dict:
-    {step, action, diff, late, owners, signature}."""
+def _repair_page_timer(h):
+    """Give the live future what the proposed fix of start_fetching_next_page would have given it (a fresh timer and a
+    fresh start time), so that the rest of the behaviour can still be compared."""
+    f = h.fut
+    done = f._event.is_set()
+    f._timer = None
+    f._start_time = h.epoch_start
+    f._start_timer()
+    if done:
+        f._cancel_timer()
+
+
+def replay(nhosts, states, max_epoch=2, drain=True, log=None, resync=True):
+    """Replay one behaviour (list of spec states, first = an initial state) on fresh real objects.
+    Returns the list of divergences [{step, action, diff, late, owners, signature, resynced}] (empty = conforms).
+    A divergence with resynced=True was repaired on the live objects (known class) and the replay went on; any other
+    divergence ends the replay."""
     cfg = config_of(states[0])
+    target = cfg["target"]
+    out = []
     h = ReqHarness(nhosts, cfg["pool"], cfg["idem"], cfg["spec"], cfg["target"], max_epoch=max_epoch)
     try:
         d = diff(spec_view(states[0]), h.project(), started=False)
         if d:
-            return _div(0, {"name": "Init"}, d, False)
+            return [_div(0, {"name": "Init"}, d, False, target)]
         prev_final = "unset"
         for i, s in enumerate(states[1:], 1):
             act = {k: (str(v) if isinstance(v, str) else v) for k, v in dict(s["act"]).items()}
@@ -608,16 +644,15 @@ def replay(nhosts, states, max_epoch=2, drain=True, log=None):
                 h.do(act)
             except HarnessRefusal as ex:
                 d = {"_refused": {"spec": "enabled", "code": str(ex)}}
-                real = h.project()
-                d.update(diff(spec_view(states[i - 1]), real))
-                return _div(i, act, d, late)
+                d.update(diff(spec_view(states[i - 1]), h.project()))
+                return out + [_div(i, act, d, late, target)]
             except Exception as ex:            # noqa: BLE001 - the code under test blew up inside the action
                 d = {"_raised": {"spec": "no exception", "code": "%s: %s" % (type(ex).__name__, ex)}}
                 try:
                     d.update(diff(spec_view(s), h.project()))
                 except Exception:              # noqa: BLE001
                     pass
-                return _div(i, act, d, late)
+                return out + [_div(i, act, d, late, target)]
             real = h.project()
             sv = spec_view(s)
             d = diff(sv, real)
@@ -628,26 +663,34 @@ def replay(nhosts, states, max_epoch=2, drain=True, log=None):
             if log is not None:
                 log.append((act, real))
             if d:
-                return _div(i, act, d, late)
+                dv = _div(i, act, d, late, target)
+                if resync and dv["signature"] == "StartNextPage:no-fresh-timer":
+                    try:
+                        _repair_page_timer(h)
+                        again = diff(sv, h.project())
+                    except Exception as ex:    # noqa: BLE001
+                        again = {"_raised": {"spec": "-", "code": repr(ex)}}
+                    if not again:
+                        dv["resynced"] = True
+                        out.append(dv)
+                        prev_final = sv["final"]
+                        continue
+                return out + [dv]
             prev_final = sv["final"]
         if drain and states[-1]["started"] and str(states[-1]["final"]) == "unset":
             d = h.drain()
             if d:
-                return _div(len(states), {"name": "Drain"}, d, False)
-        return None
+                out.append(_div(len(states), {"name": "Drain"}, d, False, target))
+        return out
     finally:
         h.shutdown()
 
 
-def _div(step, act, d, late):
+def _div(step, act, d, late, target):
     fields = [k for k in d if not k.startswith("_")]
-    own = owners_of(fields, late) if fields else {"C14", "C15", "C16", "C17"}
-    if not fields:
-        # the harness could not perform / the code raised: attribute by the kind of action
-        own = {"AnsOk": {"C14"}, "AnsFatal": {"C14"}, "AnsErr": {"C16"}, "RetryTask": {"C16"}, "SpecFire": {"C15"},
-               "TimeoutFire": {"C15"}, "StartNextPage": {"C15"}, "Start": {"C17"}}.get(act.get("name"), own)
-    return {"step": step, "action": act, "diff": d, "late": late, "owners": sorted(own),
-            "signature": classify(act, fields or list(d), late)}
+    sig, own = attribute(act.get("name"), fields, late, target)
+    return {"step": step, "action": act, "diff": d, "late": late, "owners": sorted(own), "signature": sig,
+            "resynced": False}
 
 
 # ---------------------------------------------------------------------- recording (code -> spec)
